@@ -37,6 +37,11 @@ def gen(rng, k):
         for j in range(rng.randint(1, 3)):
             phase = rng.choice(['normal', 'normal', 'normal', 'none', 'wait'])
             a = addr() if phase != 'wait' else rng.choice(gen_ca.VETO[:60])
+            while phase == 'wait' and a in used:
+                # two CAs waiting on ONE address would contend, and the loser's re-claim is address claiming (C04), not an
+                # answer to a request: every CA of a scenario gets its own address
+                a = rng.choice(gen_ca.VETO[:60])
+            used.add(a)
             if first and kind == 'cannot':
                 # the CA that keeps the requester's address (lower NAME, operational from the start)
                 phase, a = 'normal', ra
